@@ -1243,7 +1243,9 @@ class Module(ABC):
         if state_name in edge_states:
             type_inds = self.base.edges.groupby("type").rank()["global_edge_index"]
             type_inds = (type_inds.astype(int) - 1).to_numpy()
-            return type_inds[np.asarray(inds)]
+            inds = np.asarray(inds)
+            # Negative indices are padding (see `make_trainable()`) and are kept.
+            return np.where(inds < 0, inds, type_inds[inds])
         return inds
 
     def get_parameters(self) -> List[Dict[str, jnp.ndarray]]:
@@ -1377,6 +1379,10 @@ class Module(ABC):
             inds = parameter["indices"]
             set_param = parameter["val"]
             if key in states:  # Only initial states, not parameters.
+                # Synaptic states are stored in one array per synapse type, but the
+                # trainables refer to the global edge index (as for synaptic parameters
+                # in `get_all_parameters()`).
+                inds = self._edge_inds_to_type_inds(key, inds)
                 # `inds` is of shape `(num_params, num_comps_per_param)`.
                 # `set_param` is of shape `(num_params,)`
                 # We need to unsqueeze `set_param` to make it `(num_params, 1)` for the
